@@ -167,6 +167,8 @@ def sink_bodies(an, rep):
                 continue
             e = ws[0]
             tgt = strip_refs(e[5][0])
+            while isinstance(tgt, tuple) and tgt[0] == "cast" and tgt[1] == "Unsize":
+                tgt = strip_refs(tgt[4])              # `&mut dyn BinaryOutput` made from the concrete sink
             val = e[5][1]
             if not _arg(val, 2):
                 okk = False
